@@ -983,6 +983,66 @@ static void run_layout_space(const char *label, int cfg, int bpp_sel, int kind_s
     vf_space_run(nm, (uint64_t)c.nblocks * (uint64_t)c.nxo * (uint64_t)c.nvar * (uint64_t)c.nf, lay_case, &c);
 }
 
+
+/* ---- YUV chroma addressing: every scanline start x and width, on an image whose chroma differs per pair / per row pair ----
+ * (the value sweep below uses constant chroma and always starts at x = 0, so it cannot see a chroma sample taken from the
+ * wrong pair; this space can) */
+static void yuvpos_case(uint64_t idx, void *vctx)
+{
+    int dims[5] = { 2, 2, 8, 9, 4 }, dg[5]; vf_decode(idx, dims, 5, dg);
+    int isyv12 = dg[0], acc = dg[1], sx = dg[2], w = dg[3] + 1, sy = dg[4];
+    int W = 16, H = 4;
+    if (sx + w > W) return;
+    const char *fname = isyv12 ? "yv12" : "yuy2";
+    int stride = isyv12 ? W : W * 2;
+    size_t size = isyv12 ? (size_t)stride * H + 2 * ((size_t)(stride / 2) * (H / 2)) : (size_t)stride * H;
+    uint8_t *bits = malloc(size + 64);
+    int Yv[4][16], Uv[4][16], Vv[4][16];
+    for (int y = 0; y < H; y++) for (int x = 0; x < W; x++) {
+        Yv[y][x] = 40 + 9 * x + 3 * y;
+        int cy = isyv12 ? y / 2 : y;
+        Uv[y][x] = (60 + 37 * (x / 2) + 71 * cy) & 255; Vv[y][x] = (200 - 29 * (x / 2) - 53 * cy) & 255;
+    }
+    if (!isyv12) {
+        for (int y = 0; y < H; y++) for (int x = 0; x < W; x++) { bits[y * stride + 2 * x] = (uint8_t)Yv[y][x]; bits[y * stride + ((2 * x) & ~3) + 1] = (uint8_t)Uv[y][x]; bits[y * stride + ((2 * x) & ~3) + 3] = (uint8_t)Vv[y][x]; }
+    } else {
+        uint8_t *vplane = bits + (size_t)stride * H, *uplane = vplane + (size_t)(stride / 2) * (H / 2);
+        for (int y = 0; y < H; y++) for (int x = 0; x < W; x++) { bits[y * stride + x] = (uint8_t)Yv[y][x]; vplane[(y / 2) * (stride / 2) + x / 2] = (uint8_t)Vv[y][x]; uplane[(y / 2) * (stride / 2) + x / 2] = (uint8_t)Uv[y][x]; }
+    }
+    if (acc) for (size_t i = 0; i < size; i++) bits[i] ^= SCR;
+    pixman_image_t *src = pixman_image_create_bits(isyv12 ? PIXMAN_yv12 : PIXMAN_yuy2, W, H, (uint32_t *)bits, stride);
+    if (acc) pixman_image_set_accessors(src, acc_read, acc_write);
+    uint32_t scan[16], pix[16]; memset(scan, 0, sizeof scan); memset(pix, 0, sizeof pix);
+    pixman_image_t *d = pixman_image_create_bits(PIXMAN_a8r8g8b8, w, 1, scan, 64);
+    pixman_image_composite32(PIXMAN_OP_SRC, src, NULL, d, sx, sy, 0, 0, 0, 0, w, 1);                 /* scanline reader */
+    pixman_image_unref(d);
+    pixman_transform_t tr; pixman_transform_init_translate(&tr, pixman_int_to_fixed(sx), pixman_int_to_fixed(sy)); pixman_image_set_transform(src, &tr);
+    d = pixman_image_create_bits(PIXMAN_a8r8g8b8, w, 1, pix, 64);
+    pixman_image_composite32(PIXMAN_OP_SRC, src, NULL, d, 0, 0, 0, 0, 0, 0, w, 1);                   /* per-pixel reader */
+    pixman_image_unref(d); pixman_image_unref(src);
+    vf_count_libcalls(2);
+    for (int i = 0; i < w && !vf_failed(); i++) {
+        int x = sx + i; double want[3]; bt601(Yv[sy][x], Uv[sy][x], Vv[sy][x], want);
+        char key[64];
+        for (int m = 0; m < 2; m++) {
+            uint32_t p = m ? pix[i] : scan[i]; int got[3] = { (p >> 16) & 255, (p >> 8) & 255, p & 255 };
+            if ((p >> 24) != 0xff || fabs(got[0] - want[0]) > 1.0 || fabs(got[1] - want[1]) > 1.0 || fabs(got[2] - want[2]) > 1.0) {
+                snprintf(key, sizeof key, "c10-yuv-chroma-position-%s", fname);
+                vf_violation(key, "%s 16x4 accessors=%d, %s reader, read starting at (%d,%d) width %d: pixel x=%d (Y=%d U=%d V=%d) reads %#010x, BT.601 gives r=%.1f g=%.1f b=%.1f (tolerance 1) — chroma taken from the wrong sample?",
+                             fname, acc, m ? "per-pixel" : "scanline", sx, sy, w, x, Yv[sy][x], Uv[sy][x], Vv[sy][x], p, want[0], want[1], want[2]);
+                break;
+            }
+        }
+        if (!vf_failed() && scan[i] != pix[i]) {
+            snprintf(key, sizeof key, "c10-yuv-readers-disagree-%s", fname);
+            vf_violation(key, "%s 16x4 accessors=%d read starting at (%d,%d) width %d: pixel x=%d scanline reader %#010x, per-pixel reader %#010x", fname, acc, sx, sy, w, x, scan[i], pix[i]);
+        }
+    }
+    acc_flush();
+    free(bits);
+    if (!vf_in_confirm) { vf_count_eval((uint64_t)w); vf_count_nontrivial((uint64_t)w); vf_outcome(vf_hash64(scan, sizeof scan, (uint64_t)idx)); }
+}
+
 int main(int argc, char **argv)
 {
     vf_init(argc, argv, "C10", "exploration");
@@ -1028,6 +1088,7 @@ int main(int argc, char **argv)
             vf_space_run(nm, (uint64_t)ic.nxo * 2 * NROUTES * NMODES * 2 * 5, idx_case, &ic);
         }
         { yuv_ctx y = { cfg, th }; char nm[64]; snprintf(nm, sizeof nm, "yuv-%s", c10_cfg_names[cfg]); uint64_t nu = th ? 256 : 12; vf_space_run(nm, nu * nu * 2 * 2, yuv_case, &y); }
+        { char nm[64]; snprintf(nm, sizeof nm, "yuv-chroma-position-%s", c10_cfg_names[cfg]); vf_space_run(nm, 2 * 2 * 8 * 9 * 4, yuvpos_case, NULL); }
         { rgbf_ctx r = { cfg }; char nm[64]; snprintf(nm, sizeof nm, "rgb_float-%s", c10_cfg_names[cfg]); vf_space_run(nm, NMODES * 2, rgbf_case, &r); }
         if (th) {
             run_layout_space("bpp24-full", cfg, 24, -1, VM_FULL, 12, 1 << R_FETCH8 | 1 << R_STORE8 | 1 << R_SELF, 1 << M_SCAN | 1 << M_TRANS, ALLA);
